@@ -958,6 +958,21 @@ theorem rnd64_monotone : MonoRnd rnd64 := rnd64_mono
 theorem rnd64_fixes_doubles (f : Rat) (hf : IsF64 f) (h0 : 0 ≤ f) : rnd64 f = f := rnd64_fix f hf h0
 theorem rnd64_value_on_grid (x : Rat) : OnGrid (rnd64 x) := rnd64_onGrid x
 
+/-- **`rnd64` is IEEE round-to-nearest, ties to even**: its value is a double
+(`rnd64_is_double`), no double is closer to the argument (`rnd64_is_nearest`), and on a tie the
+even significand is taken (`rnd64_ties_to_even`).  Together with monotonicity and the fixed points
+this is the specification of the binary64 rounding of `|a - b|` — a theorem about the function
+the driver executes, not a reading of its definition (overflow to `inf` excepted: not modelled). -/
+theorem rnd64_is_double (q : Rat) : IsF64 (rnd64 q) := rnd64_isF64 q
+theorem rnd64_is_nearest (q : Rat) (hq : 0 < q) (f : Rat) (hf : IsF64 f) :
+    |rnd64 q - q| ≤ |f - q| := rnd64_nearest q hq f hf
+theorem rnd64_ties_to_even (q : Rat) (hq : 0 < q)
+    (h : q / Visibility.pow2 (e64 q) - ((q / Visibility.pow2 (e64 q)).floor : Rat) = 1 / 2) :
+    rnd64 q = ((Visibility.roundEven (q / Visibility.pow2 (e64 q)) : Int) : Rat)
+        * Visibility.pow2 (e64 q) ∧
+      Visibility.roundEven (q / Visibility.pow2 (e64 q)) % 2 = 0 :=
+  ⟨rnd64_pos q hq, rnd64_tie_even q hq h⟩
+
 /-- **gradual underflow is invisible to the kernels**: on the difference `|a - b|` of any two
 doubles the rounding with the exponent clamp is C09's unclamped `rn53` (the model of rounds 3–4);
 a difference of doubles below `2^-1022` is exact. -/
